@@ -44,6 +44,7 @@ func Corpus() map[string][]string {
 		"kitchen": {kitchen1, kitchen2},
 		"generic": {generic1},
 		"linkname": {linkname1},
+		"linedirectives": {lineDirectives1, "package main\n\nfunc plain() int { return 1 }\n"},
 	}
 }
 
@@ -292,6 +293,24 @@ func DirectiveFile(pos string) string {
 	return t
 }
 
+const lineDirectives1 = `// Code generated from grammar.y. DO NOT EDIT.
+package main
+
+//line grammar.y:40
+func Parse(x int) int {
+	y := x + 1
+//line grammar.y:57
+	return y * 2
+}
+
+//line /abs/lexer.l:7:3
+var table = [...]int{1, 2, 3}
+
+var tail = len(table)
+
+func main() { println(Parse(tail), plain()) }
+`
+
 // ParseSources parses the given file texts into a Sources value.
 func ParseSources(importPath string, texts []string) (*sources.Sources, error) {
 	fset := token.NewFileSet()
@@ -354,6 +373,18 @@ func compileSources(s *sources.Sources, minify bool) (string, error) {
 		return "", err
 	}
 	var b strings.Builder
+	// the positions the source map is built from: where the file set says every declaration and statement is
+	for _, f := range s.Files {
+		ast.Inspect(f, func(n ast.Node) bool {
+			switch n.(type) {
+			case ast.Decl, ast.Stmt:
+				pos := s.FileSet.Position(n.Pos())
+				fmt.Fprintf(&b, "%T@%s:%d:%d ", n, pos.Filename, pos.Line, pos.Column)
+			}
+			return true
+		})
+	}
+	b.WriteString("\n")
 	for _, d := range a.Declarations {
 		v := reflect.ValueOf(*d)
 		t := v.Type()
@@ -627,6 +658,92 @@ func Isolation(r *Result) {
 	}
 }
 
+// UsedConfigs: a BuildCache value that has already been used is copied or edited, one field at a time:
+// the new configuration must not see the old one's entries (the key may not be remembered in the value).
+func UsedConfigs(r *Result) {
+	now := time.Now()
+	edits := []struct {
+		name string
+		f    func(b *cache.BuildCache)
+	}{
+		{"GOOS", func(b *cache.BuildCache) { b.GOOS = "linux" }}, {"GOARCH", func(b *cache.BuildCache) { b.GOARCH = "wasm" }},
+		{"GOROOT", func(b *cache.BuildCache) { b.GOROOT = "/other" }}, {"GOPATH", func(b *cache.BuildCache) { b.GOPATH = "/other" }},
+		{"BuildTags", func(b *cache.BuildCache) { b.BuildTags = []string{"t", "u"} }}, {"BuildTags-inplace", func(b *cache.BuildCache) { b.BuildTags[0] = "z" }},
+		{"Version", func(b *cache.BuildCache) { b.Version = "v2" }},
+	}
+	for _, e := range edits {
+		for _, firstUse := range []string{"store", "load", "both"} {
+			for _, how := range []string{"copy", "inplace", "pointer-copy"} {
+				r.Evaluations++
+				cache.Clear()
+				used := newCache()
+				if firstUse != "store" {
+					var tmp blob
+					used.Load(&tmp, "p", now)
+				}
+				if firstUse != "load" {
+					used.Store(&blob{"old configuration"}, "p", now)
+				} else {
+					newCache().Store(&blob{"old configuration"}, "p", now)
+				}
+				var target *cache.BuildCache
+				switch how {
+				case "copy":
+					c := *used
+					c.BuildTags = append([]string{}, used.BuildTags...)
+					target = &c
+				case "pointer-copy":
+					c := new(cache.BuildCache)
+					*c = *used
+					c.BuildTags = append([]string{}, used.BuildTags...)
+					target = c
+				default:
+					target = used
+				}
+				e.f(target)
+				var got blob
+				if target.Load(&got, "p", now) {
+					r.viol(fmt.Sprintf("C20/isolation/used/%s/%s/%s", e.name, firstUse, how), fmt.Sprintf("a configuration value used for %s, then %s with %s changed, reads the old configuration's entry %q", firstUse, how, e.name, got.S))
+				} else {
+					r.Nontrivial++
+				}
+			}
+		}
+	}
+}
+
+// FileTimes: the decision "stale or not" depends on the build time recorded when the entry was stored and on the
+// time of the sources, never on the time stamps of the cache file itself (copies, restores and touch change those).
+func FileTimes(r *Result, root string) {
+	base := time.Now().Add(-time.Hour).Truncate(time.Second)
+	for _, mt := range []time.Duration{-24 * time.Hour, -10 * time.Second, 0, 10 * time.Second, 30 * time.Minute, 24 * time.Hour} {
+		for _, src := range []time.Duration{-5 * time.Second, 0, 5 * time.Second, 20 * time.Minute} {
+			r.Evaluations++
+			cache.Clear()
+			bc := newCache()
+			if !bc.Store(&blob{"built at base"}, "p", base) {
+				r.viol("C20/filetimes/store", "Store failed")
+				return
+			}
+			p, err := entryPath(root)
+			if err != nil {
+				r.viol("C20/filetimes/entry", err.Error())
+				return
+			}
+			os.Chtimes(p, base.Add(mt), base.Add(mt))
+			var got blob
+			hit := bc.Load(&got, "p", base.Add(src))
+			want := src <= 0
+			if hit != want || (hit && got.S != "built at base") {
+				r.viol(fmt.Sprintf("C20/filetimes/mtime=%v/src=%v", mt, src), fmt.Sprintf("entry built at T, cache file time set to T%+v, sources modified at T%+v: hit=%v want %v", mt, src, hit, want))
+			} else {
+				r.Nontrivial++
+			}
+		}
+	}
+	cache.Clear()
+}
+
 // entryPath finds the single cache file below root.
 func entryPath(root string) (string, error) {
 	var found []string
@@ -817,6 +934,8 @@ func RunAll(root string, thorough bool) Result {
 	if thorough {
 		stride = 1
 	}
+	UsedConfigs(&r)
+	FileTimes(&r, root)
 	Damage(&r, root, stride)
 	LargeDamage(&r, root, thorough)
 	return r
